@@ -15,7 +15,7 @@ from molgri.space.rotobj import SphereGrid4DFactory
 
 PROPERTY = "C04"
 TOL_D = 1e-7
-TOL_B = 5e-5
+TOL_B = 1e-6
 
 
 def run_case(case):
@@ -77,7 +77,8 @@ def run_case(case):
         two = both & (o["nfaces"] == 2)
         if two.any() and not np.all(np.isfinite(B[two]) & (B[two] > 0)):
             vs.append(viol(pre + "|border_two_faces", "pair touching through two faces has a non-positive border", case))
-    return {"violations": vs, "pairs": N * (N - 1) // 2, "two_face": int((o["nfaces"] == 2).sum() // 2),
+    wb = float(eb.max()) if both.any() else 0.0
+    return {"violations": vs, "pairs": N * (N - 1) // 2, "two_face": int((o["nfaces"] == 2).sum() // 2), "worst_border": wb,
             "adjacent": int(X.sum() // 2)}
 
 
@@ -129,11 +130,12 @@ def run(ctx):
                 "evaluations = pairs checked",
         "samples": collect_samples([f"{c['alg']}_{c['N']}" for c in cs], 6),
         "adjacent_pairs": sum(r.get("adjacent", 0) for r in res),
+        "worst_border_deviation": max(r.get("worst_border", 0.0) for r in res),
         "pairs_touching_through_two_faces": sum(r["two_face"] for r in res),
         "getter_order_words": sum(r["words"] for r in ores), "getter_order_calls": sum(r["calls"] for r in ores),
         "exhaustive": True, "bound": {"N": "4..40" if ctx.tier == "quick" else "4..80, 100, 150, 272"},
     }
-    rep.assumptions = ["border tolerance 5e-5 absolute (the code rounds cosines to 7 decimals)", "distance tolerance 1e-7",
+    rep.assumptions = ["border tolerance 1e-6 absolute (measured deviation 3e-9 after fix F14)", "distance tolerance 1e-7",
                        "border value not compared for pairs that touch through two faces (left open by the statement)"]
     return rep
 
